@@ -1,9 +1,10 @@
-// Command harness binds the TLA+ specifications of /verif/spec to the real
-// qiloop code: it replays TLC-generated vectors and behaviours into the
-// implementation and records traces of the implementation for TLC to
-// validate.  One sub-command per property family; every sub-command prints
-// one JSON Result on stdout.
-package main
+// Package hlib is the shared part of the conformance harness that binds the
+// TLA+ specifications of /verif/spec to the real qiloop code.  Each family of
+// properties has its own binary under harness/cmd/<family>; a binary offers
+// sub-commands that replay TLC-generated vectors and behaviours into the
+// implementation or record traces of the implementation for TLC to validate,
+// and print one JSON Result on stdout.
+package hlib
 
 import (
 	"bufio"
@@ -33,32 +34,33 @@ type Result struct {
 	Extra       map[string]interface{} `json:"extra,omitempty"`
 }
 
-const maxFailuresPerClass = 5
+// MaxFailuresPerClass bounds the failures kept per class (all are counted).
+const MaxFailuresPerClass = 5
 
-func (r *Result) fail(class, detail string, c interface{}) {
+func (r *Result) Fail(class, detail string, c interface{}) {
 	if r.FailCount == nil {
 		r.FailCount = map[string]int{}
 	}
 	r.FailCount[class]++
-	if r.FailCount[class] <= maxFailuresPerClass {
+	if r.FailCount[class] <= MaxFailuresPerClass {
 		r.Failures = append(r.Failures, Failure{class, detail, c})
 	}
 }
 
-func (r *Result) sample(s interface{}) {
+func (r *Result) Sample(s interface{}) {
 	if len(r.Samples) < 5 {
 		r.Samples = append(r.Samples, s)
 	}
 }
 
-func (r *Result) extra(k string, v interface{}) {
+func (r *Result) SetExtra(k string, v interface{}) {
 	if r.Extra == nil {
 		r.Extra = map[string]interface{}{}
 	}
 	r.Extra[k] = v
 }
 
-func (r *Result) emit() {
+func (r *Result) Emit() {
 	if r.Failures == nil {
 		r.Failures = []Failure{}
 	}
@@ -67,20 +69,20 @@ func (r *Result) emit() {
 	}
 	enc := json.NewEncoder(os.Stdout)
 	if err := enc.Encode(r); err != nil {
-		fatal("encode result: %v", err)
+		Fatal("encode result: %v", err)
 	}
 }
 
 var commands = map[string]func(args []string){}
 
-func register(name string, f func(args []string)) { commands[name] = f }
+func Register(name string, f func(args []string)) { commands[name] = f }
 
-func fatal(format string, a ...interface{}) {
+func Fatal(format string, a ...interface{}) {
 	fmt.Fprintf(os.Stderr, "harness: "+format+"\n", a...)
 	os.Exit(3)
 }
 
-func seed() int64 {
+func Seed() int64 {
 	s, err := strconv.ParseInt(os.Getenv("VERIF_SEED"), 10, 64)
 	if err != nil {
 		return 1
@@ -88,13 +90,13 @@ func seed() int64 {
 	return s
 }
 
-func thorough() bool { return os.Getenv("VERIF_TIER") == "thorough" }
+func Thorough() bool { return os.Getenv("VERIF_TIER") == "thorough" }
 
 // readLines calls f for every line of an ndjson file.
-func readLines(path string, f func(line []byte)) {
+func ReadLines(path string, f func(line []byte)) {
 	fh, err := os.Open(path)
 	if err != nil {
-		fatal("open %s: %v", path, err)
+		Fatal("open %s: %v", path, err)
 	}
 	defer fh.Close()
 	sc := bufio.NewScanner(fh)
@@ -107,22 +109,23 @@ func readLines(path string, f func(line []byte)) {
 		f(b)
 	}
 	if err := sc.Err(); err != nil {
-		fatal("read %s: %v", path, err)
+		Fatal("read %s: %v", path, err)
 	}
 }
 
-func main() {
+// Main dispatches to the registered sub-command.
+func Main() {
 	if len(os.Args) < 2 {
 		names := []string{}
 		for n := range commands {
 			names = append(names, n)
 		}
 		sort.Strings(names)
-		fatal("usage: harness <command> ...; commands: %v", names)
+		Fatal("usage: harness <command> ...; commands: %v", names)
 	}
 	f, ok := commands[os.Args[1]]
 	if !ok {
-		fatal("unknown command %q", os.Args[1])
+		Fatal("unknown command %q", os.Args[1])
 	}
 	f(os.Args[2:])
 }
